@@ -533,6 +533,18 @@ impl ClientCtx {
                     self.end(opn, res);
                 }
             },
+            Op::StopT { h, t } => match hold.strong.get(*h).and_then(|s| s.as_ref()) {
+                None => self.skipped(OpKind::Stop, *h),
+                Some(s) => {
+                    let opn = self.begin(s.a, OpKind::Stop, *h, via);
+                    let res = match tokio::time::timeout(self.world.dur(*t), s.inner.stop(via)).await {
+                        Ok(r) => r,
+                        // abandoned: the stop() future was dropped before it returned
+                        Err(_) => Res::ErrTimeout,
+                    };
+                    self.end(opn, res);
+                }
+            },
             Op::Kill { h } => match hold.strong.get(*h).and_then(|s| s.as_ref()) {
                 None => self.skipped(OpKind::Kill, *h),
                 Some(s) => {
